@@ -293,7 +293,7 @@ public:
 
 	// Clones all referenced blocks in the specified block.
 	// Source block can be located in a different file (see "srcNif" parameter).
-	void CloneChildren(NiObject* block, NifFile* srcNif = nullptr);
+	void CloneChildren(NiObject* block, NifFile* srcNif = nullptr, const uint32_t srcBlockId = NIF_NPOS);
 
 	// Clones the specified shape with a destination name and returns it.
 	// Source block can be located in a different file (see "srcNif" parameter).
